@@ -281,6 +281,7 @@ def rule_routers(ctx, res):
 def run(ctx, res):
     d = common.Dispatcher(ctx)
     res.touch(d.body)
+    common.rule_closed_world(ctx, res)
     common.rule_who_admits(ctx, res)
     common.rule_admission_filter(ctx, res)
     rule_response_routing(ctx, res)
